@@ -67,15 +67,13 @@ pub struct Remover {}
     }
 //@end
 
-/// mm_spec has the properties promised to the callers. Sortedness, emptiness, extent and EXACT COVERAGE are proved
-/// (lemma_mm_core, by induction over the forest with the mcm lemmas); the two remaining clauses of mm_post -
-/// every marker endpoint is an endpoint of some node, pair indices are consistent - are stated and NOT YET PROVED.
+/// mm_spec has the properties promised to the callers. Sortedness, emptiness, extent, EXACT COVERAGE (lemma_mm_core) and
+/// "every marker endpoint is an endpoint of some node range" (lemma_mm_endpoints) are PROVED by induction over the forest
+/// with the mcm lemmas; the one remaining clause of mm_post - pair indices are consistent - is stated and NOT YET PROVED.
 #[verifier::external_body]
-pub proof fn lemma_mm_post_rest(f: Seq<GTree>)
+pub proof fn lemma_mm_pairs(f: Seq<GTree>)
     requires exists|lo: int, hi: int| wf_forest(f, lo, hi),
-    ensures
-        forall|i: int| 0 <= i < mm_spec(f).len() ==> forest_endpoint(f, (#[trigger] mm_spec(f)[i]).0.start) && forest_endpoint(f, mm_spec(f)[i].0.end),
-        pairs_consistent(mm_spec(f)),
+    ensures pairs_consistent(mm_spec(f)),
 {}
 pub proof fn lemma_mm_post(f: Seq<GTree>)
     requires exists|lo: int, hi: int| wf_forest(f, lo, hi),
@@ -83,7 +81,8 @@ pub proof fn lemma_mm_post(f: Seq<GTree>)
 {
     let (lo, hi) = choose|lo: int, hi: int| wf_forest(f, lo, hi);
     lemma_mm_core(f, lo, hi);
-    lemma_mm_post_rest(f);
+    lemma_mm_endpoints(f, lo, hi);
+    lemma_mm_pairs(f);
 }
 
 //@fn id=merge_markers file=code/remover.rs name=merge_markers in="impl Remover" props=C01,C02,C03,C04,C12,C15
